@@ -7,7 +7,7 @@ Import ListNotations.
 
 (* ---- 1. white space: build.process_whitespace, all strings, all six white-space values ----
    pw_text w f s = (text, returned flag, leading_collapsible_space set) for one TextBox given the incoming flag f;
-   pw_kids pflow f kids = the loop over the children of a box whose is_in_normal_flow() is pflow. *)
+   pw_kids f kids = the loop over the children of a box (in normal flow or not: the loop does not look). *)
 
 (* the result is what CSS Text 3 4.1.1 prescribes for the value: normal/nowrap: words joined by single spaces, one
    space kept at either end, the leading one dropped after a collapsible space; pre-line: line feeds kept, no space or
@@ -18,38 +18,38 @@ Proof. exact (pw_text_spec w f s). Qed.
 Print Assumptions C08_ws_css_text_3.
 
 (* element_to_box runs process_whitespace once per ancestor: running it again changes nothing ... *)
-Theorem C08_ws_idempotent (pflow f : bool) (kids : list node) :
-  pw_kids pflow f (fst (pw_kids pflow f kids)) = pw_kids pflow f kids.
-Proof. exact (ws_idempotent pflow f kids). Qed.
+Theorem C08_ws_idempotent (f : bool) (kids : list node) :
+  pw_kids f (fst (pw_kids f kids)) = pw_kids f kids.
+Proof. exact (ws_idempotent f kids). Qed.
 Print Assumptions C08_ws_idempotent.
 
 (* ... and the pass of an ancestor (flag f) absorbs the element's own first pass (flag unset) *)
-Theorem C08_ws_repass_absorbed (pflow f : bool) (kids : list node) :
-  pw_kids pflow f (fst (pw_kids pflow false kids)) = pw_kids pflow f kids.
-Proof. exact (ws_repass_absorbed pflow f kids). Qed.
+Theorem C08_ws_repass_absorbed (f : bool) (kids : list node) :
+  pw_kids f (fst (pw_kids false kids)) = pw_kids f kids.
+Proof. exact (ws_repass_absorbed f kids). Qed.
 Print Assumptions C08_ws_repass_absorbed.
 
-(* in an in-flow box whose text all collapses and whose inline boxes are in flow: over the whole inline formatting
-   context (flats: the characters in order, None for an atomic box) no collapsible space follows another one, nor the
-   incoming one; and no tab survives *)
+(* in any box -- in normal flow, floated or absolutely positioned -- whose text all collapses and whose inline boxes
+   are in flow: over the whole inline formatting context (flats: the characters in order, None for an atomic box) no
+   collapsible space follows another one, nor the incoming one; and no tab survives *)
 Theorem C08_ws_no_double_space_when_collapsing (f : bool) (kids : list node) :
   all_texts sp_collapse kids = true -> inl_flows kids = true ->
-  no_double f (flats (fst (pw_kids true f kids))) = true /\
-  Forall (fun o => match o with Some c => is_ts c = true -> c = SP | None => True end) (flats (fst (pw_kids true f kids))).
+  no_double f (flats (fst (pw_kids f kids))) = true /\
+  Forall (fun o => match o with Some c => is_ts c = true -> c = SP | None => True end) (flats (fst (pw_kids f kids))).
 Proof. exact (ws_no_double_space_when_collapsing f kids). Qed.
 Print Assumptions C08_ws_no_double_space_when_collapsing.
 
-(* not so when the box itself is out of flow (float, absolute): "a " + <b>" b"</b> keeps both spaces  [finding] *)
-Theorem C08_ws_no_double_space_refuted :
-  exists kids, all_texts sp_collapse kids = true /\ inl_flows kids = true /\
-               flats (fst (pw_kids false false kids)) = map Some (codes [97; 32; 32; 98]).
-Proof. exact ws_no_double_space_refuted. Qed.
-Print Assumptions C08_ws_no_double_space_refuted.
+(* the witness that refuted it before the repair of F151 (the children of a float): "a " + <b>" b"</b> is "a b" *)
+Theorem C08_ws_out_of_flow_container_collapses :
+  flats (fst (pw_kids false [T WNormal false (codes [97; 32]); I true false [T WNormal false (codes [32; 98])]])) =
+  map Some (codes [97; 32; 98]).
+Proof. exact ws_former_refutation_witness. Qed.
+Print Assumptions C08_ws_out_of_flow_container_collapses.
 
 (* every character other than space, tab, LF, CR is kept, in order, in every box, whatever the values and flags *)
-Theorem C08_ws_preserves_non_space_chars_in_order (pflow f : bool) (kids : list node) :
-  nw (flats (fst (pw_kids pflow f kids))) = nw (flats kids).
-Proof. exact (ws_preserves_non_space_chars_in_order pflow f kids). Qed.
+Theorem C08_ws_preserves_non_space_chars_in_order (f : bool) (kids : list node) :
+  nw (flats (fst (pw_kids f kids))) = nw (flats kids).
+Proof. exact (ws_preserves_non_space_chars_in_order f kids). Qed.
 Print Assumptions C08_ws_preserves_non_space_chars_in_order.
 
 (* pre / pre-wrap / break-spaces: the text is kept up to the normalisation of line ends, which only touches CR *)
@@ -167,18 +167,19 @@ Print Assumptions C08_block_in_inline_pieces.
 
 (* ---- 4. display / float / position -> computed display -> box class ---- *)
 (* computed_values.display is the table of CSS 2.1 9.7 (with the later display values, CSS Display 3 2.7) for every
-   value except inline-table / inline-flex / inline-grid *)
+   value the validator produces (list-item only with flow / flow-root) *)
 Theorem C08_css21_9_7_table (p : posv) (f : floatv) (root : bool) (v : disp) :
-  keeps_inner v = true -> display p f root v = css_display p f root v.
+  valid_disp v = true -> display p f root v = css_display p f root v.
 Proof. exact (css21_9_7_table p f root v). Qed.
 Print Assumptions C08_css21_9_7_table.
 
-(* for those three the inner display type is lost: a floated inline-flex becomes a plain block  [finding] *)
-Theorem C08_css21_9_7_table_refuted :
-  exists p f root v, display p f root v <> css_display p f root v /\
-                     box_class (display p f root v) = Some BlockBox /\ box_class (css_display p f root v) = Some FlexBox.
-Proof. exact css21_9_7_table_refuted. Qed.
-Print Assumptions C08_css21_9_7_table_refuted.
+(* a floated / absolutely positioned / root inline-flex, inline-grid, inline-table box keeps its inner display type and
+   gets the flex / grid / table box class; inline-block becomes a plain block (repaired defect F153) *)
+Theorem C08_blockified_keeps_inner (p : posv) (f : floatv) (root : bool) (i : inner) :
+  blockifies p f root = true ->
+  box_class (display p f root (DPair OInline i false)) = box_class (DPair OBlock (match i with FlowRoot => Flow | _ => i end) false).
+Proof. exact (blockified_keeps_inner p f root i). Qed.
+Print Assumptions C08_blockified_keeps_inner.
 
 (* a float, an absolutely positioned box and the root box are block-level *)
 Theorem C08_blockified_is_block_level p f root v c :
